@@ -135,7 +135,7 @@ theorem ext_startRelayOne {am : Bool} {n m : Node} (c : Nat) (vpnIp : Addr) (v1 
     · split
       · exact ext_pending _ e
       · split
-        · exact ext_pending _ e
+        · exact e
         · split
           · split
             · exact e
